@@ -13,16 +13,17 @@ demos=[l[3:] for l in sh("git status --porcelain -uall",cwd=wt).stdout.splitline
 assert demos, "no demo file"
 for d in demos: shutil.copy(os.path.join(wt,d), f'{out}/'+os.path.basename(d))
 demo=demos[0]; test_name=os.path.basename(demo)[:-3]
+feat=' --features clap,serde' if 'crates/lib' in demo else ''
 pkg='gamedig' if 'crates/lib' in demo else ('gamedig_cli' if 'crates/cli' in demo else 'gamedig-id-tests')
 ran=[]
 # with the change: build, demo fails, suite as baseline
 r=sh("cargo build --workspace --offline",cwd=wt); ran.append(("cargo build --workspace --offline (with change)", r.returncode)); assert r.returncode==0, r.stderr[-500:]
-r=sh(f"cargo test -p {pkg} --test {test_name} --offline",cwd=wt); ran.append((f"demo with change", r.returncode)); demo_with=r.returncode
+r=sh(f"cargo test -p {pkg}{feat} --test {test_name} --offline",cwd=wt); ran.append((f"demo with change", r.returncode)); demo_with=r.returncode
 r=sh("cargo test --workspace --no-fail-fast --offline 2>&1 | grep -E '^test result|^test .* FAILED'",cwd=wt); suite=r.stdout
 failed=[l for l in suite.splitlines() if 'FAILED' in l and l.startswith('test ')]
 # without the change
 sh("git apply -R "+f'{out}/patch.diff',cwd=wt)
-r=sh(f"cargo test -p {pkg} --test {test_name} --offline",cwd=wt); ran.append(("demo without change", r.returncode)); demo_without=r.returncode
+r=sh(f"cargo test -p {pkg}{feat} --test {test_name} --offline",cwd=wt); ran.append(("demo without change", r.returncode)); demo_without=r.returncode
 sh("git apply "+f'{out}/patch.diff',cwd=wt)
 ok = demo_with!=0 and demo_without==0
 # existing failures must be exactly test_display (+ the demo's own tests)
